@@ -626,7 +626,7 @@ _CORPUS = [
  b"GET /\x00\xff HTTP/1.1\r\nH\x80: \xfe\r\n\r\n",
 ]
 NATIVE_SWEEPS = [
-    {'name': 'parser_segmentation', 'driver': 'parse_rt', 'props': ['C01', 'C03'], 'what': 'RequestParser::feed/parse, every cut of every message',
+    {'name': 'parser_segmentation', 'quick': True, 'driver': 'parse_rt', 'props': ['C01', 'C03'], 'what': 'RequestParser::feed/parse, every cut of every message',
      'argvs': [[m.hex()] for m in _CORPUS]},
     {'name': 'parser_successive_messages', 'driver': 'parse_rt', 'props': ['C04'], 'what': 'RequestParser::feed/parse/reset, second message after every prefix of the first',
      'argvs': [[_CORPUS[a].hex(), _CORPUS[b].hex()] for a in (1, 4, 6, 7, 8, 10, 17, 21, 25) for b in (0, 1, 4, 6, 8, 11)]},
